@@ -27,7 +27,7 @@ RULE = (
     "argument-free conditions, variables) or such a term broken by one edit (argument-free addend, argument-free "
     "non-zero list-tensor component, square, product with a second occurrence of the argument, nonlinear function, "
     "abs, division by the argument, argument in a condition, branches of different arity, terms with different "
-    "argument sets, missing/spurious conjugation in complex mode, also of the third argument); real and complex mode. The form goes through "
+    "argument sets, missing/spurious conjugation in complex mode, also of the third argument or of one term of a sum); real and complex mode. The form goes through "
     "compute_form_data; non-trivial = accepted and numerically verified multilinear with a non-zero value, or a broken "
     "program (numerically non-linear) that was rejected; distinct = distinct (recipe, mode)."
 )
@@ -84,7 +84,7 @@ def cases(draw, tier):
     kind = draw(st.sampled_from(["linear", "linear", "broken", "broken"]))
     brk = None
     if kind == "broken":
-        brk = draw(st.sampled_from(BREAKS + (["conj_third"] * 6 if (cplx and nargs == 3) else [])))
+        brk = draw(st.sampled_from(BREAKS + (["conj_third"] * 6 if (cplx and nargs == 3) else []) + (["sum_conj"] * 4 if cplx else [])))
         a = draw(st.sampled_from(argnames))
         s = scalar_of(G, L, a)
         free = G.expr((), (), 1)
@@ -132,6 +132,13 @@ def cases(draw, tier):
                 t = ["mul", ["conj", scalar_of(G, L, "a0")], ["conj", scalar_of(G, L, "a1")]]
             else:
                 t = ["pow", t, ["lit", 2]]
+        elif brk == "sum_conj":
+            # a sum of two terms over the same arguments, one of them with the conjugations exchanged: only real-linear
+            bad = ["conj", mk_term(1)] if draw(st.booleans()) else \
+                ["mul", scalar_of(G, L, "a0"), (["conj", scalar_of(G, L, "a1")] if nargs >= 2 else G.positive(free))]
+            if nargs == 3 and bad[0] == "mul":
+                bad = ["mul", bad, third()]
+            t = ["add", t, bad] if draw(st.booleans()) else ["sub", bad, t]
         elif brk == "conj_third":
             # antilinear in the argument numbered 2
             t = ["mul", L.term(argnames[:2], 1), ["conj", third()]]
